@@ -103,6 +103,9 @@ func TestC06NestedCoherent(t *testing.T) {
 		if n.Focus {
 			stats.Label("nested-coherent", "lookahead-focus")
 		}
+		if n.MergeFocus {
+			stats.Label("nested-coherent", "merge-focus")
+		}
 		runNested(t, n.List, n.Gdef, n.Alphabet, n.NumCtx, "nested-coherent", n.Patterns)
 	})
 }
